@@ -101,8 +101,12 @@ pub fn guard<T>(what: &str, f: impl FnOnce() -> T) -> Result<T, Fail> {
         Ok(v) => Ok(v),
         Err(_) => {
             let (msg, loc) = LAST_PANIC.with(|p| p.borrow_mut().take()).unwrap_or_default();
-            // location inside the harness => harness bug, still reported (never silently passed)
             let short = loc.rsplit('/').next().unwrap_or("").to_string();
+            // a panic raised by the harness's own sources (its generators, models, bookkeeping) is a defect of the harness, not an
+            // observation about the crate: reported as an infrastructure problem (exit 2), never as a violation
+            if loc.starts_with("vcheck/src/") || loc.starts_with("vmodel/src/") || loc.contains("/harness/vcheck/src/") || loc.contains("/harness/vmodel/src/") {
+                return Err(Fail { sig: format!("harness:panic:{}:{}", what, short), msg: format!("the harness itself panicked in {}: {} at {}", what, msg, loc) });
+            }
             Err(Fail { sig: format!("panic:{}:{}", what, short), msg: format!("panic in {}: {} at {}", what, msg, loc) })
         }
     }
